@@ -53,9 +53,12 @@ def replay(spec):
         rxns = spec["rxns"]
         ks = [float(vals["k%d" % i]) for i in range(len(rxns))]
         reactions, params = [], []
+        one = {"k": "kp0"}
+        if spec.get("shared"):
+            ks = [ks[0]] * len(rxns)
         for i, r in enumerate(rxns):
-            reactions.append((list(r), [], "massaction", {"k": "kp%d" % i} if spec["named"] else {"k": ks[i]}))
-            if spec["named"]:
+            reactions.append((list(r), [], "massaction", one if spec.get("shared") else {"k": "kp%d" % i} if spec["named"] else {"k": ks[i]}))
+            if spec["named"] and not (spec.get("shared") and i):
                 params.append(("kp%d" % i, ks[i]))
         try:
             M = Model(species=list(species), reactions=reactions, parameters=params)
